@@ -267,10 +267,23 @@ def seqElCtx (ctx : Ctx) (len : Nat) : Ctx := ctx.nested.withStrategy (if len ==
 /-- what pretty_dict computes per pair before laying the pairs out: key, key doc, value doc, re-rendered value doc -/
 abbrev PairDocs := PyVal × Doc × Doc × Doc
 
+mutual
+/-- the value a dict key is ordered by (`_without_comments`): comment wrappers dropped from the key and, for a tuple key,
+from its elements at every depth -/
+def sortKey : PyVal → PyVal
+  | .commented v _ => sortKey v
+  | .trailing v _ => sortKey v
+  | .seq kind cls xs => if kind == 1 then .seq kind cls (sortKeyL xs) else .seq kind cls xs
+  | v => v
+def sortKeyL : List PyVal → List PyVal
+  | [] => []
+  | v :: r => sortKey v :: sortKeyL r
+end
+
 /-- insertion by `<` on the keys, generic in what is carried along with each key -/
 def insertK {α} (x : PyVal × α) : List (PyVal × α) → List (PyVal × α)
   | [] => [x]
-  | y :: r => if pyLt (stripComments x.1) (stripComments y.1) == some true then x :: y :: r else y :: insertK x r
+  | y :: r => if pyLt (sortKey x.1) (sortKey y.1) == some true then x :: y :: r else y :: insertK x r
 /-- stable insertion sort by `<` on the keys (Python's `sorted` is stable and uses only `<`) -/
 def sortK {α} (xs : List (PyVal × α)) : List (PyVal × α) := xs.reverse.foldl (fun acc x => insertK x acc) []
 
